@@ -287,7 +287,13 @@ def _prov(t, cm):
         if is_mod(y):
             px = _prov(x, cm)
             for a, v in cm.items():
-                if a[0] == "b" and a[1][0] == "cmp" and a[1][2] == x and is_mod(a[1][3]) and a[1][1] in ("gt", "ge") and v is True and ORDER[px] <= ORDER[L254]:
+                if not (a[0] == "b" and a[1][0] == "cmp" and ORDER[px] <= ORDER[L254]):
+                    continue
+                op, l, r = a[1][1], a[1][2], a[1][3]
+                # x >= p (or x > p) established on this path, in any of its spellings: x >= p, !(x < p), p <= x, !(p > x)
+                if l == x and is_mod(r) and ((op in ("gt", "ge") and v is True) or (op in ("lt", "le") and v is False)):
+                    return R
+                if r == x and is_mod(l) and ((op in ("lt", "le") and v is True) or (op in ("gt", "ge") and v is False)):
                     return R
             return ANY
         if is_mod(x):
